@@ -25,16 +25,18 @@ fn c42_workers_for_contract() {
 // (measured: > 8 min for a 3-byte list), so the string API is a CARRIER: `KSrc` is a
 // cpulist seen as its comma-separated parts, `KStr` one part seen as what the std
 // functions make of it. The carrier methods are the assumed contracts on std:
-//   trim()            : whitespace around a part never changes what it parses to
+//   trim()            : removes the whitespace around a text (and nothing else)
 //   split(',')        : yields the parts in order
-//   is_empty()        : true exactly for the empty part
+//   is_empty()        : true exactly for the text of length 0 (not for whitespace)
 //   split_once('-')   : Some((left, right)) iff the part contains a '-'
-//   parse::<usize>()  : Ok(n) iff the text is a decimal usize, else Err
+//   parse::<usize>()  : Ok(n) iff the text is a decimal usize, else Err (whitespace makes it Err)
+// A part carries flags for whitespace around it and around the sides of its '-', so a rendering
+// with arbitrary whitespace is in the domain and the places where the code must trim are checked.
 // What is verified is everything parse_cpulist itself decides: which parts are
 // skipped, inclusive ranges, junk ignored, sort + dedup.
 #[derive(Clone, Copy)]
 pub struct KStr {
-    /// 0 = empty, 1 = no '-' in the part, 2 = contains '-'
+    /// 0 = empty or only whitespace, 1 = no '-' in the part, 2 = contains '-'
     kind: u8,
     a: usize,
     a_ok: bool,
@@ -42,6 +44,10 @@ pub struct KStr {
     b_ok: bool,
     /// for an atom produced by split_once
     atom: bool,
+    /// whitespace around the text (outer), and around the two sides of the '-'
+    pad: bool,
+    a_pad: bool,
+    b_pad: bool,
 }
 pub trait KFromUsize: Sized {
     fn from_usize(n: usize) -> Self;
@@ -52,25 +58,28 @@ impl KFromUsize for usize {
     }
 }
 impl KStr {
+    /// std: removes leading and trailing whitespace, nothing else
     pub fn trim(&self) -> KStr {
-        *self
+        KStr { pad: false, ..*self }
     }
+    /// std: true exactly for the text of length 0 (a whitespace-only text is not empty)
     pub fn is_empty(&self) -> bool {
-        self.kind == 0
+        self.kind == 0 && !self.pad
     }
     pub fn split_once(&self, c: char) -> Option<(KStr, KStr)> {
         assert!(c == '-');
         if self.kind == 2 {
-            let l = KStr { kind: 1, a: self.a, a_ok: self.a_ok, b: 0, b_ok: false, atom: true };
-            let r = KStr { kind: 1, a: self.b, a_ok: self.b_ok, b: 0, b_ok: false, atom: true };
+            // the outer padding stays on the outer ends of the two halves
+            let l = KStr { kind: 1, a: self.a, a_ok: self.a_ok, b: 0, b_ok: false, atom: true, pad: self.pad || self.a_pad, a_pad: false, b_pad: false };
+            let r = KStr { kind: 1, a: self.b, a_ok: self.b_ok, b: 0, b_ok: false, atom: true, pad: self.pad || self.b_pad, a_pad: false, b_pad: false };
             Some((l, r))
         } else {
             None
         }
     }
+    /// std: Ok(n) iff the text is a decimal usize - a text with whitespace, a '-' or no digits is not
     pub fn parse<T: KFromUsize>(&self) -> Result<T, ()> {
-        // a part containing '-' is not a decimal usize; an empty part is not either
-        if self.kind == 1 && self.a_ok {
+        if self.kind == 1 && self.a_ok && !self.pad {
             Ok(T::from_usize(self.a))
         } else {
             Err(())
@@ -78,7 +87,8 @@ impl KStr {
     }
 }
 pub fn mk_part(kind: u8, a: usize, a_ok: bool, b: usize, b_ok: bool) -> KStr {
-    KStr { kind, a, a_ok, b, b_ok, atom: false }
+    // whitespace anywhere a rendering may put it
+    KStr { kind, a, a_ok, b, b_ok, atom: false, pad: kani::any(), a_pad: kani::any(), b_pad: kani::any() }
 }
 /// carrier for the `Vec<usize>` the loop body pushes into (fixed capacity; overflow fails the harness)
 pub struct KVec {
@@ -90,6 +100,11 @@ impl KVec {
         assert!(self.len < 8, "VERIF carrier capacity (unsupported)");
         self.buf[self.len] = v;
         self.len += 1;
+    }
+    pub fn extend<I: IntoIterator<Item = usize>>(&mut self, it: I) {
+        for v in it {
+            self.push(v);
+        }
     }
 }
 
@@ -147,7 +162,7 @@ fn c42_kx_cpulist_part_denotation() {
     kani::assume(kind <= 2);
     let (a, b): (usize, usize) = (kani::any(), kani::any());
     kani::assume(b < a || b - a < W);
-    let part = KStr { kind, a, a_ok: kani::any(), b, b_ok: kani::any(), atom: false };
+    let part = KStr { kind, a, a_ok: kani::any(), b, b_ok: kani::any(), atom: false, pad: kani::any(), a_pad: kani::any(), b_pad: kani::any() };
     let pre: usize = kani::any();
     kani::assume(pre <= 2);
     let mut out = KVec { buf: [kani::any(); 8], len: pre };
@@ -198,6 +213,11 @@ pub mod whole {
             assert!(self.len < CAP, "VERIF carrier capacity (unsupported)");
             self.buf[self.len] = v;
             self.len += 1;
+        }
+        pub fn extend<I: IntoIterator<Item = T>>(&mut self, it: I) {
+            for v in it {
+                self.push(v);
+            }
         }
         pub fn sort_unstable(&mut self) {
             let mut i = 1;
